@@ -303,3 +303,15 @@ Theorem C18_observed_states_settled :
     settle c fuel (reach c scripts waits) = reach c scripts waits.
 Proof. exact reach_settled. Qed.
 Print Assumptions C18_observed_states_settled.
+
+(* (5) SelectionStrategy::Random (crate feature `random`, compiled into the driver): the RNG draw is a
+   parameter of the model's [Random d]. For every draw it returns something whenever something qualifies,
+   what it returns qualifies, and it does not move the cursor. (C18_get_healthy_sound / C18_get_usable_sound /
+   C18_none_when_none quantify over every strategy and so cover [Random d] as well.) No evenness is claimed. *)
+Theorem C18_random_strategy :
+  forall flt d rs c r,
+    implies_usable flt -> In r rs -> flt (st r) = true ->
+    exists i r', get_with_filter flt (Random d) rs c = (Some i, c) /\
+                 nth_error rs i = Some r' /\ flt (st r') = true.
+Proof. exact random_some_when_some. Qed.
+Print Assumptions C18_random_strategy.
